@@ -20,7 +20,7 @@ RULES=[ # (property, key regex, commit subject prefix, what)
  ('C13', r'encode-exhaustive:sbom\.\(\*ExternalReference\)\.flatString#Hashes', 'fix: ExternalReference equality', 'ExternalReference.flatString ignored Hashes: references differing only in hashes compared equal'),
  ('C14', r'encode-exhaustive:sbom\.\(\*ExternalReference\)\.flatString#Hashes', 'fix: ExternalReference equality', 'a difference only in an external reference\'s hashes was not reported by Diff'),
  ('C04', r'absent-part-guard:unserializers\.\(\*CDX\)\.licenseChoicesToLicense(List|String)#lc\.License', 'fix: CycloneDX reader panicked', 'a licence choice without a licence object ({} or {"expression":""}) dereferenced the nil License pointer'),
- ('C04', r'absent-part-guard:unserializers\.\(\*SPDX23\)\.(Unserialize#[fp]|packageToNode#r)$', 'fix: SPDX reader panicked', 'null entries in files / packages / externalRefs reached fileToNode / packageToNode / extRefToProtobomEnum as nil pointers'),
+ ('C04', r'absent-part-guard:unserializers\.\(\*SPDX23\)\.(Unserialize#[fp]|packageToNode#r)$', 'fix: SPDX reader panicked on null entries', 'null entries in files / packages / externalRefs reached fileToNode / packageToNode / extRefToProtobomEnum as nil pointers'),
  ('C07', r'absent-part-guard:(serializers\.\(\*CDX\)\.|serializers\.sbomTypeToPhase)', 'fix: CycloneDX serializer panicked', 'CycloneDX Serialize dereferenced absent metadata / node list / document-type name / nil list entries'),
  ('C07', r'absent-part-guard:sbom\.\(\*NodeList\)\.GetNodeByID', 'fix: GetNodeByID panicked', 'GetNodeByID dereferenced a nil node entry'),
  ('C07', r'absent-part-guard:(serializers\.\(\*SPDX23\)\.|serializers\.build)', 'fix: SPDX 2.3 serializer panicked', 'SPDX 2.3 Serialize/Render dereferenced an absent node list, nil list entries, nil render options, and asserted the native document type without comma-ok'),
@@ -28,6 +28,7 @@ RULES=[ # (property, key regex, commit subject prefix, what)
  ('C07', r'absent-part-guard:writer\.', 'fix: WriteStreamWithOptions panicked', 'WriteStreamWithOptions dereferenced nil options and invoked a nil serializer returned by GetFormatSerializer'),
  ('C16', r'loop-totality:sbom\.\(\*NodeList\)\.GetRootNodes/Nodes#exit:break', 'fix: GetRootNodes stopped scanning', 'GetRootNodes left its loop once it had as many nodes as root identifiers: with two nodes sharing a root identifier (Nodes [a,a,b], roots [a,b]) root b was dropped, depending on list order'),
  ('C16', r'loop-totality:sbom\.\(\*NodeList\)\.GetMatchingNode/\[\]\*sbom\.Node#skip:dedupe', 'fix: GetMatchingNode merged distinct nodes', 'hash matches were keyed by node identifier: two distinct nodes sharing an identifier and both matching the probe were folded into one and the first in list order was returned instead of ErrorMoreThanOneMatch'),
+ ('C04', r'panicking-decoder-contained:unserializers\.\(\*SPDX23\)\.Unserialize#github\.com/spdx/tools-golang/json\.Read', 'fix: SPDX reader panicked on a null entry', 'an SPDX JSON document with "packages":[null] makes tools-golang dereference a nil pointer while decoding; the panic left Unserialize / ParseStream instead of an error (reported by a round-11 mutation agent as already present, reproduced with reader.New().ParseStream)'),
  ('C07', r'nesting-is-acyclic:serializers\.\(\*CDX\)\.dependencies#attach', 'fix: CycloneDX serializer overflowed the stack', 'a contains edge from a node to itself appended a by-value copy of the component to its own child list (shared pointer, cyclic structure): with the node also nested under another top-level component (edges [a contains a], [b contains a]) clearAutoRefs recursed until the stack overflowed — a fatal error, not an error return'),
  ('C19', r'absent-part-guard:storage\.\(\*FileSystem\)\.Store#bom', 'fix: FileSystem.Store panicked on a nil document', 'FileSystem.Store(nil, …) dereferenced bom.Metadata: nil pointer panic instead of the "no document id set" error'),
  ('C07', r'map-order-independence:serializers\.\(\*CDX\)\.nodeToComponent/Identifiers#c\.CPE', 'fix: CycloneDX serializer picks the component CPE', 'with an empty CPE 2.3 identifier next to a non-empty CPE 2.2 one, the emitted component cpe depended on map iteration order (Identifiers{CPE23:"",CPE22:"cpe:/a:v:p:1"}: 266 of 300 runs emitted the cpe, 34 omitted it)'),
